@@ -44,7 +44,7 @@ prop("C01", lambda t, s: [("conc", n(t, 1, 10)), ("conc", n(t, 1, 10)), ("conc",
      exhaustive_note="McFaults enumerates every first-order fault of spec/Faults.tla on the tiny domain; every faulted buffer goes to all 16 packet decoders, 7 sub-decoders and the datagram decoder; McFaultsDev does the same from the encodings of the deviating model (SLI with PT 205, CCFB num_reports n-1), which are the ones the library's SLI and CCFB decoders accept")
 prop("C02", lambda t, s: [("mc", "Mc", "McWireUnk"), ("drive", "sizes", 0), ("drive", "dict", 0), ("mc", "Mc", "McWire"), ("mc", "Mc", "McWirePairs"), ("mc", "Mc", "McReuse"), ("drive", "reuserand", n(t, 300, 10000)), ("drive", "rt", n(t, 1500, 60000)), ("drive", "rtlist", n(t, 300, 10000)), ("drive", "bigframes", n(t, 0, 1)), ("drive", "recombine", n(t, 300, 10000))], exhaustive_note=WIRE_NOTE)
 prop("C03", lambda t, s: [("drive", "rtlist", n(t, 300, 10000)), ("drive", "sizes", 0), ("drive", "dict", 0), ("mc", "Mc", "McWire"), ("mc", "Mc", "McWirePairs"), ("mc", "Mc", "McVariants"), ("drive", "rt", n(t, 1500, 60000)), ("drive", "bigframes", n(t, 0, 1)), ("mc", "Mc", n(t, "McCompound", "McCompound4")), ("drive", "cprand", n(t, 200, 10000)), ("mc", "Mc", "McLoose"), ("drive", "errpaths", n(t, 200, 10000))], exhaustive_note=WIRE_NOTE)
-prop("C05", lambda t, s: [("drive", "dict", 0), ("drive", "sizes", 0), ("mc", "Mc", "McWire"), ("mc", "Mc", "McWirePairs"), ("drive", "rt", n(t, 1500, 60000)), ("drive", "rtlist", n(t, 300, 10000)), ("drive", "bigframes", n(t, 0, 1)), ("drive", "cprand", n(t, 200, 10000)), ("mc", "Mc", "McLoose")], exhaustive_note=WIRE_NOTE)
+prop("C05", lambda t, s: [("mc", "Mc", "McLimits"), ("drive", "dict", 0), ("drive", "sizes", 0), ("mc", "Mc", "McWire"), ("mc", "Mc", "McWirePairs"), ("drive", "rt", n(t, 1500, 60000)), ("drive", "rtlist", n(t, 300, 10000)), ("drive", "bigframes", n(t, 0, 1)), ("drive", "cprand", n(t, 200, 10000)), ("mc", "Mc", "McLoose")], exhaustive_note=WIRE_NOTE)
 prop("C09", lambda t, s: [("conc", n(t, 1, 10)), ("mc", "Mc", "McForeignPairs"), ("drive", "dict", 0), ("mc", "Mc", n(t, "McFaults", "McFaults2")), ("mc", "Mc", "McFaultsDev"), ("drive", "fuzzdgram", n(t, 8000, 300000))],
      exhaustive_note="McFaults enumerates every first-order fault on the tiny domain and follows every accepted datagram through Marshal and a second decode")
 prop("C10", lambda t, s: [("drive", "dict", 0), ("mc", "Mc", "McWireUnk"), ("mc", "Mc", "McWire"), ("mc", "Mc", "McWirePairs"), ("mc", "Mc", "McReuse"), ("mc", "Mc", n(t, "McHist", "McHist4")), ("drive", "histrand", n(t, 300, 10000)), ("mc", "Mc", n(t, "McCompound", "McCompound4")), ("drive", "rt", n(t, 1500, 60000)), ("drive", "cprand", n(t, 300, 20000))],
